@@ -150,6 +150,8 @@ class C06(Prop):
     def run_impl(self, c):
         if c["kind"] == "mixers":
             return self._mixer_run(c)
+        if c["kind"] == "reports":
+            return self._reports_run(c)
         if c["kind"] == "overlap":
             return vloop.run(param_impl.run_overlap, c["tbl"], c["idx"], c["triple"], c["req"], c["retries"], c["events"])
         if c["kind"].startswith("frames:"):
@@ -185,7 +187,7 @@ class C06(Prop):
         return reqs
 
     def model_many(self, cases):
-        if cases and all(c["kind"] == "mixers" for c in cases):
+        if cases and all(c["kind"] in ("mixers", "reports") for c in cases):
             return [None] * len(cases)
         reqs = self._reqs(cases)
         fix = lambda r: [[([o[0], bool(o[1])] if o[0] == 2 else o) for o in pt] for pt in r]
@@ -232,8 +234,8 @@ class C06(Prop):
         return [[[o for o in pt if o[0] in (0, 3)] for pt in b[0]], b[1]]
 
     def spec_many(self, cases, behaviours):
-        if cases and all(c["kind"] == "mixers" for c in cases):
-            return [self._mixer_ok(c, b) for c, b in zip(cases, behaviours)]
+        if cases and all(c["kind"] in ("mixers", "reports") for c in cases):
+            return [(self._mixer_ok if c["kind"] == "mixers" else self._reports_ok)(c, b) for c, b in zip(cases, behaviours)]
         reqs = self._reqs(cases)
         args, idx = [], []
         res = [True] * len(cases)
@@ -326,8 +328,82 @@ class C06(Prop):
                 (sent != [] or v == last[0])
         return out == "ValueError" and sent == [] and held == last
 
+    # ---- reports arriving back to back on a device whose parameter events have (slow) user subscribers ----
+    def _reports_case(self, rng):
+        t = G.tables()
+        product = rng.choice([0, 1])
+        tab = t[param_impl.TABLES[product]]
+        plain = [i for i, d in enumerate(tab) if not d["switch"] and d["multiplier"] == 1.0 and d["offset"] == 0 and d["size"] == 1 and i < 40]
+        first = rng.randrange(0, 6)
+        count = rng.randrange(3, 9)
+        cand = [i for i in plain if first <= i < first + count]
+        if not cand:
+            return None
+        pidx = rng.choice(cand)
+        reports = []
+        settled_first = rng.random() < 0.5
+        for _ in range(rng.choice([2, 2, 3]) + (1 if settled_first else 0)):
+            slots = []
+            for i in range(count):
+                lo = rng.randrange(0, 100)
+                hi = rng.randrange(lo, 255)
+                slots.append([rng.randrange(lo, hi + 1), lo, hi])
+            reports.append(slots)
+        last = reports[-1][pidx - first]
+        # (when the first report is handled on its own, the subscribers are slow on their SECOND call: the first of the burst)
+        slow = [[first + i, rng.choice([1, 2, 5]), 2 if settled_first else 1] for i in range(count) if rng.random() < 0.4]
+        cands = [0, 254]
+        for r in reports:
+            x = r[pidx - first]
+            cands += [x[1], x[2], x[2] + 1, max(0, x[1] - 1), (x[1] + x[2]) // 2]
+        value = rng.choice([c for c in cands if 0 <= c <= 254])
+        return {"kind": "reports", "product": product, "first": first, "pidx": pidx, "reports": reports, "slow": slow, "value": value,
+                "last": last, "b0": rng.randrange(256), "settled_first": settled_first}
+
+    def _reports_run(self, c):
+        payloads = [list(model.call("enc_ecomax_params", [c["b0"], c["first"], [[x] for x in slots]])) for slots in c["reports"]]
+        return vloop.run(param_impl.run_eco_reports, c["product"], payloads, c["slow"], c["pidx"], c["value"], c.get("settled_first", False))
+
+    def _reports_ok(self, c, b):
+        """judged against the range of the LAST report (ground truth of the harness)"""
+        if len(b) != 3:
+            return False
+        out, sent, held = b
+        v, (cur, lo, hi) = c["value"], c["last"]
+        if lo <= v <= hi:
+            return out != "ValueError" and all(m == [c["pidx"], v] for m in sent) and held[1:] == [lo, hi] and (sent != [] or v == cur)
+        return out == "ValueError" and sent == [] and held == c["last"]
+
+    def known_match(self, entry, c, b):
+        """D23: the creation race only -- the parameter did not exist yet when the burst of reports arrived, one of its subscribers
+        awaits, and what the device holds afterwards is the triple of an EARLIER report of the burst, consistently (the call is
+        judged exactly as the rule demands against that stale triple)."""
+        if entry["id"] != "D23" or not isinstance(c, dict) or c.get("kind") != "reports" or c.get("settled_first") or len(b) != 3:
+            return False
+        out, sent, held = b
+        k = c["pidx"] - c["first"]
+        v = c["value"]
+        stale = [r[k] for r in c["reports"][:-1] if r[k][1:] == held[1:] and r[k] != c["last"]]
+        if not c["slow"] or not stale:
+            return False
+        cur, lo, hi = stale[-1]
+        if lo <= v <= hi:
+            # accepted against the stale range: transmitted (or a no-op), the requested value held optimistically
+            return out != "ValueError" and all(m == [c["pidx"], v] for m in sent) and (sent != [] or v == cur) and held[0] in (v, cur)
+        return out == "ValueError" and sent == [] and held[0] == cur
+
     def extra_checks(self, tier, rng):
         fails = []
+        self._report_runs = 0
+        for _ in range(150 if tier == "quick" else 3000):
+            c = self._reports_case(rng)
+            if c is None:
+                continue
+            b = self._reports_run(c)
+            self._report_runs += 1
+            if not self._reports_ok(c, b):
+                fails.append({"case": c, "impl": b, "reason": "after reports arriving back to back a parameter is validated or written against a "
+                              "range that is not the one the controller reported last"})
         self._mixer_runs = 0
         for _ in range(150 if tier == "quick" else 3000):
             c = self._mixer_case(rng)
@@ -339,7 +415,7 @@ class C06(Prop):
         return fails
 
     def extra_coverage(self):
-        return {"mixer_sessions": getattr(self, "_mixer_runs", 0)}
+        return {"mixer_sessions": getattr(self, "_mixer_runs", 0), "back_to_back_report_sessions": getattr(self, "_report_runs", 0)}
 
     def nontrivial_key(self, c, mb):
         return repr(c) if mb is not None else None
